@@ -55,6 +55,13 @@ func (f *Subtypep) Call(s *slip.Scope, args slip.List, depth int) slip.Object {
 			(et2 == nil || et1 == et2 || et1 != nil && et1.Inherits(et2)) {
 			result[0] = slip.True
 		}
+	} else if slip.ObjectEqual(args[0], args[1]) {
+		// A type specifier that is not a class, list or keyword, is still a
+		// subtype of itself.
+		result[0] = slip.True
+	} else {
+		// Nothing is known about a specifier that is not a class.
+		result[1] = nil
 	}
 	return result
 }
